@@ -16,9 +16,14 @@ static volatile int g_nh_calls = 0;
 static volatile int g_nh_limit = 3;
 static void new_handler_jmp() { g_nh_calls++; if (g_nh_calls >= g_nh_limit) longjmp(g_nh_jmp, 1); }
 
+// forced collections of a heap are observed through the deferred-free callback (called with force=true at the start of every forced collect): a request that is
+// malformed in itself (overflow, larger than the maximum, invalid alignment) must not collect the heap -- that adopts abandoned segments, releases retired pages, ...
+static volatile uint64_t g_forced_collects = 0; static uint64_t g_forced_seen = 0, g_mal_forced_checked = 0;
+static void mal_deferred_cb(bool force, unsigned long long heartbeat, void* arg) { (void)heartbeat; (void)arg; if (force) g_forced_collects++; }
+
 struct Snapshot { size_t cons; size_t live; };
 
-static Snapshot snap(State& S) { Snapshot s; s.cons = conservation_count(S); s.live = S.sm.live.size(); return s; }
+static Snapshot snap(State& S) { Snapshot s; s.cons = conservation_count(S); s.live = S.sm.live.size(); g_forced_seen = g_forced_collects; return s; }
 
 static void expect_clean(State& S, const Snapshot& before, const char* what, vf::Blk* victim) {
   // no effect on the heap: same number of allocated blocks, the block being re-allocated is untouched
@@ -35,6 +40,9 @@ static void expect_clean(State& S, const Snapshot& before, const char* what, vf:
 static void must_null(State& S, void* p, const Snapshot& b, const char* what, vf::Blk* victim = nullptr) {
   g_mal_calls++;
   if (p != nullptr) vf_trip("malformed-accepted", "C06", "%s returned %p instead of NULL", what, p);
+  g_mal_forced_checked++;
+  if (g_forced_collects != g_forced_seen) { uint64_t k = g_forced_collects - g_forced_seen; g_forced_seen = g_forced_collects;
+    vf_trip("malformed-side-effect", "C06", "%s: the request is malformed in itself but the heap was force-collected %llu time(s) on its behalf (the out-of-memory path was taken)", what, (unsigned long long)k); }
   expect_clean(S, b, what, victim);
 }
 
@@ -192,9 +200,20 @@ static void grid(State& S) {
     must_null(S, mi_memalign(a, n), b, WHAT("mi_memalign(%zu,%zu)", a, n));
     must_null(S, mi_aligned_alloc(a, n), b, WHAT("mi_aligned_alloc(%zu,%zu)", a, n));
     must_null(S, mi_new_aligned_nothrow(n, a), b, WHAT("mi_new_aligned_nothrow(%zu,%zu)", n, a));
-    if (a > sizeof(void*)) {   // with alignment <= sizeof(void*) the realloc family documents plain realloc behaviour
-      must_null(S, mi_realloc_aligned(nullptr, n, a), b, WHAT("mi_realloc_aligned(NULL,%zu,%zu)", n, a));
-      must_null(S, mi_rezalloc_aligned_at(nullptr, n, a, 8), b, WHAT("mi_rezalloc_aligned_at(NULL,%zu,%zu,8)", n, a));
+    // the aligned re-allocation forms: with NULL and with a live block (new sizes: n, and the block's own size so that "still fits" could apply); the block must stay untouched
+    must_null(S, mi_realloc_aligned(nullptr, n, a), b, WHAT("mi_realloc_aligned(NULL,%zu,%zu)", n, a));
+    must_null(S, mi_rezalloc_aligned_at(nullptr, n, a, 8), b, WHAT("mi_rezalloc_aligned_at(NULL,%zu,%zu,8)", n, a));
+    {
+      const size_t fit = v->n;
+      g_mal_badalign += 8;
+      must_null(S, mi_realloc_aligned(v->p, n, a), b, WHAT("mi_realloc_aligned(p,%zu,%zu)", n, a), v);
+      must_null(S, mi_realloc_aligned(v->p, fit, a), b, WHAT("mi_realloc_aligned(p,%zu (fits),%zu)", fit, a), v);
+      must_null(S, mi_realloc_aligned_at(v->p, fit, a, 0), b, WHAT("mi_realloc_aligned_at(p,%zu (fits),%zu,0)", fit, a), v);
+      must_null(S, mi_rezalloc_aligned(v->p, n, a), b, WHAT("mi_rezalloc_aligned(p,%zu,%zu)", n, a), v);
+      must_null(S, mi_recalloc_aligned(v->p, 1, fit, a), b, WHAT("mi_recalloc_aligned(p,1,%zu (fits),%zu)", fit, a), v);
+      must_null(S, mi_recalloc_aligned_at(v->p, 1, n, a, 8), b, WHAT("mi_recalloc_aligned_at(p,1,%zu,%zu,8)", n, a), v);
+      must_null(S, mi_heap_realloc_aligned(dh, v->heap == S.cur_default ? v->p : nullptr, n, a), b, WHAT("mi_heap_realloc_aligned(p,%zu,%zu)", n, a), v->heap == S.cur_default ? v : nullptr);
+      must_null(S, mi_heap_rezalloc_aligned_at(dh, v->heap == S.cur_default ? v->p : nullptr, fit, a, 0), b, WHAT("mi_heap_rezalloc_aligned_at(p,%zu (fits),%zu,0)", fit, a), v->heap == S.cur_default ? v : nullptr);
     }
     void* out = (void*)(uintptr_t)0x5a5a5a; int rc = mi_posix_memalign(&out, a, n);
     g_mal_calls++; g_mal_posix++;
@@ -225,13 +244,14 @@ static void grid(State& S) {
 }
 
 static void mal_print(FILE* f) {
-  fprintf(f, ",\"malformed\":{\"calls\":%llu,\"overflow\":%llu,\"too_large\":%llu,\"bad_alignment\":%llu,\"posix_memalign\":%llu,\"new_handler\":%llu,\"between\":%llu,\"heap_states\":%llu,\"realloc_victim_checks\":%llu}",
+  fprintf(f, ",\"malformed\":{\"calls\":%llu,\"overflow\":%llu,\"too_large\":%llu,\"bad_alignment\":%llu,\"posix_memalign\":%llu,\"new_handler\":%llu,\"between\":%llu,\"heap_states\":%llu,\"realloc_victim_checks\":%llu,\"checked_for_forced_collect\":%llu}",
           (unsigned long long)g_mal_calls, (unsigned long long)g_mal_overflow, (unsigned long long)g_mal_toolarge, (unsigned long long)g_mal_badalign, (unsigned long long)g_mal_posix,
-          (unsigned long long)g_mal_new, (unsigned long long)g_mal_between, (unsigned long long)g_mal_states, (unsigned long long)g_mal_realloc_checked);
+          (unsigned long long)g_mal_new, (unsigned long long)g_mal_between, (unsigned long long)g_mal_states, (unsigned long long)g_mal_realloc_checked, (unsigned long long)g_mal_forced_checked);
 }
 
 void run_malformed(State& S) {
   add_result_printer(&mal_print);
+  mi_register_deferred_free(&mal_deferred_cb, nullptr);
   // state 1: fresh heap
   grid(S);
   // state 2..: inside an ordinary history
